@@ -276,7 +276,8 @@ impl Iterator for TimeSeries {
     }
 
     fn size_hint(&self) -> (usize, Option<usize>) {
-        (self.len(), Some(self.len() + 1))
+        // `len()` is an approximation computed in floating point: it is not an upper bound on the number of items.
+        (self.len(), None)
     }
 }
 
